@@ -20,6 +20,9 @@ the same child name, which must be clean), "revisions" (two revisions of one mod
 implementation alone: every augment statement of every loaded revision is visible below its target or reported),
 "target-revisions" (two revisions of the AUGMENTED module, importers pinning the older, the newer or no revision: every
 augment is visible exactly in the revision its import denotes, or reported when that revision lacks the target),
+"conflict-then-removed" (two augments that conflict on a target which a deviate not-supported then removes, itself or
+through an ancestor: the conflict must still be reported), "late-parse" (history on one Modules value: target modules
+parsed, GetModule, augmenting modules parsed, GetModule again - must equal the fresh batch; harness command c18proc),
 "submodule-prefixes" (augments written in a submodule whose own imports / belongs-to prefix differ from its module's:
 only the submodule imports the target, module and submodule bind one prefix to different modules, belongs-to prefix
 unlike the module's own).
@@ -633,6 +636,29 @@ def revision_defects(marks, line):
     return bad
 
 
+def late_parse_line(schema):
+    """c18proc history: parse the modules nobody's augments come from first (t and what it includes), GetModule, parse the
+    rest, GetModule again.  None when there is nothing to parse late."""
+    names = {m["name"] for m in schema}
+    early = [m for m in schema if not m["name"].startswith("maug") and m["name"] not in ("hostm", "hs", "atop")]
+    # the early part must be closed under import / include
+    en = {m["name"] for m in early}
+    early = [m for m in early if all(mn in en for _, mn in m["imports"]) and all(i in en for i in m["includes"])
+             and (m["belongs"] is None or m["belongs"] in en)]
+    en = {m["name"] for m in early}
+    late = [m for m in schema if m["name"] not in en]
+    probe = next((m["name"] for m in early if m["belongs"] is None), None)
+    if not late or probe is None:
+        return None
+    mods = early + late
+    g = "G" + sg.hx(probe)
+    ops = ["L%d" % i for i in range(len(early))] + [g] + ["L%d" % i for i in range(len(early), len(mods))] + [g]
+    toks = ["c18proc", "-", ",".join(ops), str(len(mods))]
+    for m in mods:
+        toks += [sg.hx(m["name"] + ".yang"), sg.hx(sg.render_module(m))]
+    return " ".join(toks)
+
+
 def with_top(schema):
     """the module set plus a module `atop` that imports every module: loading atop alone reaches all of them"""
     top = mk("atop", "atop", imports=[("i%d" % i, m["name"]) for i, m in enumerate(schema) if m["belongs"] is None])
@@ -791,6 +817,30 @@ def gen(tier, seed):
             sub["augments"].append((path_of("hm" if shape != "belongs-to-prefix" else "self", ["mc"]), [leaf(g.fresh("al"))]))
         rnd.shuffle(sub["augments"])
         out.append((mods, dict(kinds=["submodule-prefix-table:" + shape], chains=[1], errors=[], ic=False), "submodule-prefixes"))
+    # a name conflict between augments whose target (or an ancestor of it) is then removed by deviate not-supported:
+    # the conflict must still be reported
+    for k in range(36 if tier == "quick" else 360):
+        g = AGen(rnd)
+        mods, owners = g.modules(rnd.randint(1, 3))
+        tgt, removed = rnd.choice([(["c"], ["c"]), (["c", "cc"], ["c", "cc"]), (["c", "cc"], ["c"]), (["li"], ["li"]),
+                                   (["cu", "gc"], ["cu", "gc"]), (["cu", "gc"], ["cu"]), (["ch", "ca"], ["ch", "ca"]),
+                                   (["ch", "ca"], ["ch"]), (["u1", "eo"], ["u1"]), (["options"], ["options"])])
+        o1, o2, o3 = rnd.choice(owners), rnd.choice(owners), rnd.choice(owners)
+        if k % 3 == 2:     # the target already has the child
+            nm = {"c": "l", "cc": "l2", "li": "k", "gc": "gl", "ca": "x", "eo": None, "options": "o1"}[tgt[-1]]
+        else:
+            nm = None
+        if nm is None:
+            nm = g.fresh("dup")
+            o1[0]["augments"].append((path_of(o1[1], tgt), [leaf(nm), leaf(g.fresh("al"))]))
+        o2[0]["augments"].append((path_of(o2[1], tgt), [rnd.choice([leaf(nm, "int8"), cont(nm)])]))
+        if rnd.random() < 0.5:
+            o3[0]["augments"].append((path_of(o3[1], ["n"]), [leaf(g.fresh("al"))]))
+        dv_owner = rnd.choice([o for o in owners if o[0]["belongs"] is None])
+        dv_owner[0]["deviations"].append((path_of(dv_owner[1], removed), [dict(kind="not-supported")]))
+        for m in mods:
+            rnd.shuffle(m["augments"])
+        out.append((mods, dict(kinds=["conflict-under-not-supported"], chains=[1], errors=["conflict"], ic=False), "conflict-then-removed"))
     # paths through the implicit case (applied only by the pass after FixChoice)
     for _ in range(120 if tier == "quick" else 1200):
         g = AGen(rnd)
@@ -865,10 +915,19 @@ def run(res, tier, seed, proof):
             auto_idx.append((si, how, names))
         ml_lines.append(sg.model_case(sch))
         idx.append(("mlauto", si, "auto", None))
+    # family "late-parse": the target modules are loaded and read with GetModule (a clean run), then the augmenting
+    # modules are parsed into the same set and GetModule is asked again: the result must be that of the fresh batch
+    late_lines, late_idx = [], []
+    for si, (schema, meta, origin) in enumerate(items):
+        line = late_parse_line(schema)
+        if line:
+            late_lines.append(line)
+            late_idx.append(si)
     cwd = tempfile.mkdtemp(prefix="c07cwd")
     try:
         go_out = lib.run_go(go_lines, cwd=cwd)
         auto_out = lib.run_go(auto_lines, cwd=cwd)
+        late_out = lib.run_go(late_lines, cwd=cwd)
     finally:
         shutil.rmtree(cwd, ignore_errors=True)
     ml_out = lib.run_ml(ml_lines)
@@ -1041,6 +1100,24 @@ def run(res, tier, seed, proof):
             hist["autoload_tie_mismatch"] += 1
             report(None, "tie", "tie (module set with the importing module atop): impl=%s model=%s" % (rst, m.split(" ")[0]),
                    dict(base, what_kind="tie", variant="atop", impl=(rtxt or rst), model=m[:2000]))
+    # late-parse: the second GetModule must see what was parsed after the first
+    hist["late_parse_runs"] = len(late_lines)
+    hist["late_parse_differs"] = 0
+    hist["late_parse_first_run_clean"] = 0
+    for si, line in zip(late_idx, late_out):
+        schema, meta, origin = items[si]
+        ref = next(x for x in per[si]["go"] if x[0] == "written")
+        rst, rtxt, rj = sg.canon_go(ref[2])
+        st, txt, j = sg.canon_go(line)
+        if j and len(j["runs"]) == 2 and not j["runs"][0]["errors"]:
+            hist["late_parse_first_run_clean"] += 1
+        if summarize(st, txt) != summarize(rst, rtxt):
+            hist["late_parse_differs"] += 1
+            report(None, "late-parse", "after GetModule, Parse of the augmenting modules and GetModule again the implementation gives %s %s; "
+                   "the same modules loaded in one batch give %s %s"
+                   % (st, ((j or {}).get("runs") or [{}])[-1].get("errors", line[:80])[:2] if st != "ok" else "",
+                      rst, (rj["runs"][-1]["errors"][:2] if rst == "err" else "")),
+                   dict(kind="c07", what_kind="late-parse", schema=schema, meta=meta, origin=origin))
     # two revisions of one module / submodule side by side (implementation alone: the model has one module per name)
     rcases = revision_cases(rnd, 30 if tier == "quick" else 300) + target_revision_cases(rnd, 30 if tier == "quick" else 300)
     rlines, ridx = [], []
@@ -1071,7 +1148,7 @@ def run(res, tier, seed, proof):
     nontrivial = sum(1 for s_, m_, o_ in items if sum(len(x["augments"]) for x in s_) >= 2)
     s0 = items[0][0]
     cov = dict(
-        evaluations=len(go_lines) + len(auto_lines) + len(rlines) + len(ml_lines), distinct_nontrivial=nontrivial, schemas=len(items),
+        evaluations=len(go_lines) + len(auto_lines) + len(late_lines) + len(rlines) + len(ml_lines), distinct_nontrivial=nontrivial, schemas=len(items),
         rule="every schema in three variants (as written; augment statements permuted inside each module; augmenting modules "
              "renamed, which permutes Process's sorted visiting order), each loaded in %d orders on the implementation and run on "
              "the model at the implementation's visiting order, plus %d further order arguments on the model; compared: canonical "
@@ -1085,7 +1162,8 @@ def run(res, tier, seed, proof):
         "renaming the augmenting modules and on the model by the explicit order argument",
         "forest equivalence of the theorems ignores the order of children and the presence of an EMPTY rpc input/output; the "
         "correspondence compares input/output presence exactly",
-        "deviations are absent from the generated schemas (C08); uses-augment and refine are not modelled",
+        "deviations occur only as deviate not-supported of a conflicting augment's target or ancestor (family "
+        "conflict-then-removed); their own semantics is C08; uses-augment and refine are not modelled",
     ]
     return cov, assumptions
 
@@ -1133,6 +1211,16 @@ def replay(rep, res):
         print("model (%s): %s" % (label, {k: v[:3] for k, v in mouts.items()}))
         outs |= set(mouts)
     kind = rep.get("what_kind")
+    if kind == "late-parse":
+        cwd = tempfile.mkdtemp(prefix="c07cwd")
+        try:
+            a = sg.canon_go(lib.run_go([sg.go_case(rep["schema"])], cwd=cwd)[0])
+            b = sg.canon_go(lib.run_go([late_parse_line(rep["schema"])], cwd=cwd)[0])
+        finally:
+            shutil.rmtree(cwd, ignore_errors=True)
+        print("batch                        :", a[0], ((a[2] or {}).get("runs") or [{}])[-1].get("errors"))
+        print("GetModule, Parse, GetModule  :", b[0], ((b[2] or {}).get("runs") or [{}])[-1].get("errors"))
+        return 0 if summarize(a[0], a[1]) == summarize(b[0], b[1]) else 1
     if kind == "autoload":
         cwd = tempfile.mkdtemp(prefix="c07cwd")
         try:
